@@ -3,11 +3,12 @@ import TorchDataVerif.Proofs.PMInv
 namespace TDV.PM
 variable {c : Cfg} {s s' : State}
 
-theorem stop_false_of (h : Inv c s) (hc : s.cpc ≠ .set2 ∧ s.cpc ≠ .idle ∧ s.cpc ≠ .top ∧ s.cpc ≠ .shut1 ∧ s.cpc ≠ .closed) :
+theorem stop_false_of (h : Inv c s)
+    (hc : s.cpc ≠ .set2 ∧ s.cpc ≠ .idle ∧ s.cpc ≠ .top ∧ s.cpc ≠ .shut1 ∧ s.cpc ≠ .closed ∧ s.cpc ≠ .dset2) :
     s.stop = false := by
   cases hs : s.stop
   · rfl
-  · rcases h.stopC hs with h1 | h1 | h1 | h1 | h1 <;> simp_all
+  · rcases h.stopC hs with h1 | h1 | h1 | h1 | h1 | h1 <;> simp_all
 
 theorem nstop_zero_of (h : Inv c s) (hs : s.stop = false) : s.nstop = 0 := by
   rcases Nat.eq_zero_or_pos s.nstop with h0 | h0
@@ -40,6 +41,7 @@ theorem inv_cBoot (h : Inv c s) (hpc : s.cpc = .boot) :
   case closed => intro _ _ _; simp [ho, hsteps, CPc.bump]
   case stopOf => simp
   case bootI => simp
+  case deadSeen => simp
 
 theorem inv_cCall (h : Inv c s) (hpc : s.cpc = .idle) : Inv c { s with cpc := .top } := by
   constructor <;> (try (dsimp only; same h))
@@ -63,13 +65,15 @@ theorem inv_cCall (h : Inv c s) (hpc : s.cpc = .idle) : Inv c { s with cpc := .t
   case closed => intro h1 h2 _; have := h.closed h1 h2 (by simp [hpc]); simpa [hpc, CPc.bump] using this
   case stopOf => simp
   case bootI => simp
+  case deadSeen => simp
 
 /-- The consumer moves between two program counters that hold nothing, while no stop flag is set. -/
 theorem inv_cMove (h : Inv c s) (p q : CPc) (hpc : s.cpc = p) (hp : p.hand = none) (hq : q.hand = none)
     (hpp : p.permit = 0) (hqp : q.permit = 0) (hpb : p.bump = 0) (hqb : q.bump = 0) (hpboot : p ≠ .boot) (hqboot : q ≠ .boot)
     (hst : s.stop = false)
-    (hq1 : q ≠ .set2 ∧ q ≠ .shut1 ∧ q ≠ .closed)
-    (hfin : q = .set1 → s.done = true ∧ s.sem = c.max)
+    (hq1 : q ≠ .set2 ∧ q ≠ .shut1 ∧ q ≠ .closed ∧ q ≠ .dset2)
+    (hfin : q = .set1 → 0 < deadCount s ∨ (s.sem = c.max ∧ (s.done = true ∨ (c.term = .error ∧ c.src.length ∈ s.got))))
+    (hqd : (q = .dchk1 ∨ q = .dchk2 ∨ q = .dset1 ∨ q = .dset2) → 0 < deadCount s)
     (hget : q = .get → ¬(s.done = true ∧ s.sem = c.max)) :
     Inv c { s with cpc := q } := by
   have hmp := mpstop_false_of h hst
@@ -100,8 +104,9 @@ theorem inv_cMove (h : Inv c s) (p q : CPc) (hpc : s.cpc = p) (hp : p.hand = non
     have := h.closed h1 h2 (by rw [hpc]; exact hpboot)
     simp only [hpc, hpb, hqb] at this ⊢
     exact this
-  case stopOf => intro hh; rcases hh with hh | hh | hh <;> simp_all
+  case stopOf => intro hh; rcases hh with hh | hh | hh | hh <;> simp_all
   case bootI => intro hh; exact absurd hh hqboot
+  case deadSeen => intro hh; exact hqd hh
 
 theorem inv_cIsSet_stop (h : Inv c s) (hpc : s.cpc = .top) (hst : s.stop = true) :
     Inv c { s with cpc := .idle, nstop := s.nstop + 1 } := by
@@ -122,6 +127,7 @@ theorem inv_cIsSet_stop (h : Inv c s) (hpc : s.cpc = .top) (hst : s.stop = true)
   case closed => intro h1 h2 _; have := h.closed h1 h2 (by simp [hpc]); simpa [hpc, CPc.bump] using this
   case stopOf => simp
   case bootI => simp
+  case deadSeen => simp
 
 theorem inv_cSet (h : Inv c s) (hpc : s.cpc = .set1) : Inv c { s with stop := true, cpc := .set2 } := by
   have hst := stop_false_of h (by simp [hpc])
@@ -149,6 +155,7 @@ theorem inv_cSet (h : Inv c s) (hpc : s.cpc = .set1) : Inv c { s with stop := tr
   case closed => intro h1 h2 _; have := h.closed h1 h2 (by simp [hpc]); simpa [hpc, CPc.bump] using this
   case stopOf => simp
   case bootI => simp
+  case deadSeen => simp
 
 theorem inv_cMpSet (h : Inv c s) (hpc : s.cpc = .set2) :
     Inv c { s with mpstop := true, cpc := .idle, nstop := s.nstop + 1 } := by
@@ -174,6 +181,7 @@ theorem inv_cMpSet (h : Inv c s) (hpc : s.cpc = .set2) :
   case closed => intro h1 h2 _; have := h.closed h1 h2 (by simp [hpc]); simpa [hpc, CPc.bump] using this
   case stopOf => simp
   case bootI => simp
+  case deadSeen => simp
 
 theorem inv_cShutSet (h : Inv c s) (hpc : s.cpc = .idle) : Inv c { s with stop := true, cpc := .shut1 } := by
   constructor <;> (try (dsimp only; same h))
@@ -201,6 +209,7 @@ theorem inv_cShutSet (h : Inv c s) (hpc : s.cpc = .idle) : Inv c { s with stop :
   case closed => intro h1 h2 _; have := h.closed h1 h2 (by simp [hpc]); simpa [hpc, CPc.bump] using this
   case stopOf => simp
   case bootI => simp
+  case deadSeen => simp
 
 theorem inv_cShutMpSet (h : Inv c s) (hpc : s.cpc = .shut1) : Inv c { s with mpstop := true, cpc := .closed } := by
   have hst := h.stopOf (Or.inr (Or.inl hpc))
@@ -226,5 +235,61 @@ theorem inv_cShutMpSet (h : Inv c s) (hpc : s.cpc = .shut1) : Inv c { s with mps
   case closed => intro h1 h2 _; have := h.closed h1 h2 (by simp [hpc]); simpa [hpc, CPc.bump] using this
   case stopOf => simp [hst]
   case bootI => simp
+  case deadSeen => simp
+
+theorem inv_cDeadSet (h : Inv c s) (hpc : s.cpc = .dset1) : Inv c { s with stop := true, cpc := .dset2 } := by
+  have hst := stop_false_of h (by simp [hpc])
+  have hmp := mpstop_false_of h hst
+  have hns := nstop_zero_of h hst
+  have hd := h.deadSeen (Or.inr (Or.inr (Or.inl hpc)))
+  constructor <;> (try (dsimp only; same h))
+  case rExit => simp
+  case stopC => simp
+  case mpStop => simp [hmp]
+  case wExit =>
+    intro p hp hp2
+    have := h.wExit p hp hp2
+    cases hpr : c.proc <;> simp_all
+  case sExit => simp
+  case cnt => fr [hpc] h.cnt
+  case permits => fr [hpc] h.permits
+  case outC => simp
+  case popItem => simp
+  case order => fr [hpc] h.order
+  case doneI => fr [hpc] h.doneI
+  case doneC => fr [hpc] h.doneC
+  case fin => simp [hns]
+  case getNotFin => simp
+  case nstopStop => simp
+  case closed => intro h1 h2 _; have := h.closed h1 h2 (by simp [hpc]); simpa [hpc, CPc.bump] using this
+  case stopOf => simp
+  case bootI => simp
+  case deadSeen => intro _; exact hd
+
+theorem inv_cDeadMpSet (h : Inv c s) (hpc : s.cpc = .dset2) :
+    Inv c { s with mpstop := true, rterr := s.rterr + 1, cpc := .idle } := by
+  have hst := h.stopOf (Or.inr (Or.inr (Or.inr hpc)))
+  have hd := h.deadSeen (Or.inr (Or.inr (Or.inr hpc)))
+  constructor <;> (try (dsimp only; same h))
+  case stopC => simp
+  case mpStop => simp [hst]
+  case wExit =>
+    intro p hp hp2
+    have := h.wExit p hp hp2
+    cases hpr : c.proc <;> simp_all
+  case cnt => fr [hpc] h.cnt
+  case permits => fr [hpc] h.permits
+  case outC => simp
+  case popItem => simp
+  case order => fr [hpc] h.order
+  case doneI => fr [hpc] h.doneI
+  case doneC => fr [hpc] h.doneC
+  case fin => intro _; exact Or.inl hd
+  case getNotFin => simp
+  case closed => intro h1 h2 _; have := h.closed h1 h2 (by simp [hpc]); simpa [hpc, CPc.bump] using this
+  case stopOf => simp
+  case bootI => simp
+  case deadSeen => simp
+  case rtDead => intro _; exact hd
 
 end TDV.PM
